@@ -155,8 +155,19 @@ func runC19(r *rt.Run, tier string) {
 		}
 	}
 	r.Event("arrival", fmt.Sprint(arrival), "")
+	fileOps := []int{} // per file in arrival order: open, read, read (EOF), close - and one more EOF read when the last line has no newline
 	for _, i := range arrival {
-		fs.PutQuiet(fmt.Sprintf("/queue/%s.dsc", srcs[i].Name), []byte(srcs[i].Doc.render()))
+		fileOps = append(fileOps, 4)
+		text := srcs[i].Doc.render()
+		// a quarter of the files end in their build-dependency fields, and the
+		// last line of the file has no newline (the end of file arrives in the
+		// middle of the dependency line, or of its last continuation line)
+		if t.Bool(1, 4, "c19.depslast") {
+			text = depsLastNoNewline(text)
+			fileOps[len(fileOps)-1] = 5
+			r.Stats["config.deps-last-no-newline"]++
+		}
+		fs.PutQuiet(fmt.Sprintf("/queue/%s.dsc", srcs[i].Name), []byte(text))
 	}
 	simos.Install(fs)
 	defer simos.Install(nil)
@@ -176,8 +187,11 @@ func runC19(r *rt.Run, tier string) {
 	if small && t.Bool(1, 5, "config.faulty") {
 		victim = t.Draw(n, "fault.victim")
 		fs.Subject = "parse"
-		// per file: open, read, read (EOF), close
-		fs.Plan = map[int]simos.Fault{4*victim + 2: {Kind: "short"}, 4*victim + 3: {Kind: "err", Errno: syscall.EIO}}
+		base := 0
+		for _, k := range fileOps[:victim] {
+			base += k
+		}
+		fs.Plan = map[int]simos.Fault{base + 2: {Kind: "short"}, base + 3: {Kind: "err", Errno: syscall.EIO}}
 		r.Stats["config.faulty"]++
 	}
 	var dscs []control.DSC
@@ -196,11 +210,17 @@ func runC19(r *rt.Run, tier string) {
 		return
 	}
 	if victim >= 0 {
-		fired := false
+		fired, halfRead := false, "-"
 		for _, op := range fs.History {
 			// (only a failing open or read obliges the parser; a failing close of a
 			// file that was read completely may be ignored)
-			if op.Fault == "err" && (op.Op == "read" || op.Op == "open") {
+			// and only a failure that follows a read which handed out part of
+			// the same file: a failed first read that the parser repeats with
+			// success loses nothing)
+			if op.Fault == "short" && op.Op == "read" && op.N > 0 {
+				halfRead = op.Path
+			}
+			if op.Fault == "err" && op.Op == "read" && op.Path == halfRead {
 				fired = true
 			}
 		}
@@ -421,4 +441,25 @@ func init() {
 		Assumptions: []string{"claimed weakly: the function under test is pure; simulation owns only the arrival order, the file reads and the map-order seam. The deciding oracle is a graph model over generated inputs", "architecture restrictions use concrete architectures only (wildcard matching belongs to the not-applicable property C06)", "every binary is built by exactly one of the given sources"},
 	})
 	propProbes["C19"] = []string{"dsc-read-failed-half-way", "ordered-by-concurrent-callers", "binary-named-like-another-source", "dependency-named-like-a-source-nobody-builds", "ordered-for-two-architectures", "cyclic-graph", "acyclic-graph", "edge-through-alternative", "multi-binary-source-has-dependents"}
+}
+
+// depsLastNoNewline moves the Build-Depends* fields (with their continuation
+// lines) to the end of a one-paragraph document and drops the final newline.
+func depsLastNoNewline(text string) string {
+	var head, deps []string
+	inDep := false
+	for _, line := range strings.SplitAfter(text, "\n") {
+		if line == "" {
+			continue
+		}
+		if line[0] != ' ' && line[0] != '\t' {
+			inDep = strings.HasPrefix(line, "Build-Depends")
+		}
+		if inDep {
+			deps = append(deps, line)
+		} else {
+			head = append(head, line)
+		}
+	}
+	return strings.TrimSuffix(strings.Join(head, "")+strings.Join(deps, ""), "\n")
 }
